@@ -7,7 +7,7 @@
     VCC, EXEC, M0, PC, every other SGPR/VGPR, memory and LDS. *)
 From Coq Require Import ZArith List Bool Lia.
 Import ListNotations.
-From VIsa Require Import IsaState ExecImpl ExecSpec ExecProofs ExecRows ExecRefute.
+From VIsa Require Import IsaState ExecImpl ExecSpec ExecImplV ExecSpecV ExecProofs ExecRows ExecVProofs ExecVRowsA ExecVThm ExecRefute.
 Open Scope Z_scope.
 
 (** SOP2, 32-bit rows: every opcode either ALU implements (after the repairs of
@@ -100,6 +100,56 @@ Proof.
 Qed.
 Print Assumptions gcn3_cdna3_agree_sop2.
 
+(** * Vector integer instructions (VOP2 / VOP1 / VOPC / VOP3a / VOP3b).
+    [exec_vector a] transcribes the sequential 64-lane loops of the Go handlers,
+    [exec_spec_v a] the per-lane rows of the manuals with the frame: lanes whose
+    EXEC bit is clear keep their VGPRs, the mask destination (VCC or an SGPR
+    pair) receives 0 for them, nothing else changes.  [vrows a]: 65 (GCN3) / 72
+    (CDNA3) (format, opcode) rows - v_cndmask, v_mul_*24, v_min/max, shifts,
+    logic, v_add/sub/subrev/addc/subb/subbrev (VOP2 and VOP3b, carry through
+    VCC or an SGPR pair), v_mov, v_not, v_ffbh, every 32-bit integer compare
+    (VOPC and VOP3a), v_mad_*24, v_bfe_u32/i32, v_min3/max3/med3, v_mul_lo/hi_u32
+    and the gfx9 three-operand adds/shifts.  [vadm]: sources are VGPRs or the
+    scalar kinds of [adm32 true], a carry-in mask operand is of kind [adm64],
+    the destination is a VGPR, the mask destination of kind [admd64]. *)
+Theorem impl_eq_spec_vector : forall a st i,
+  In (i_fmt i, i_op i) (vrows a) -> wf st -> 0 <= i_lit i < W32 ->
+  (forall d r, vdesc_of a (i_fmt i) (i_op i) = Some d -> vrow_of a (i_fmt i) (i_op i) = Some r -> vadm d r i) ->
+  agree_v a st i.
+Proof. exact vector_agree. Qed.
+Print Assumptions impl_eq_spec_vector.
+
+Theorem impl_eq_spec_readfirstlane : forall a st i, i_fmt i = F_VOP1 -> i_op i = 2 -> wf st ->
+  0 <= i_lit i < W32 -> admv (i_src0 i) -> admd32 (i_dst i) -> agree_v a st i.
+Proof. exact readfirstlane_agree. Qed.
+Print Assumptions impl_eq_spec_readfirstlane.
+
+Theorem gcn3_cdna3_agree_vector : forall st i,
+  In (i_fmt i, i_op i) (vrows GCN3) -> wf st -> 0 <= i_lit i < W32 ->
+  (forall a d r, vdesc_of a (i_fmt i) (i_op i) = Some d -> vrow_of a (i_fmt i) (i_op i) = Some r -> vadm d r i) ->
+  exists s1 s2, exec_vector GCN3 st i = Some s1 /\ exec_vector CDNA3 st i = Some s2 /\ state_eq s1 s2.
+Proof. exact vector_both. Qed.
+Print Assumptions gcn3_cdna3_agree_vector.
+
+(** The lane loop itself: what the sequential Go loop computes is the lane-wise
+    map (this is the local version of the discipline C06 proves generically). *)
+Theorem lane_loop_is_map : forall e d dcnt g st valof flagof,
+  (forall l v, valof l = Some v -> is_vgpr d = true) ->
+  (forall l s, lane_agree st s l -> g l s = Some (valof l, flagof l)) ->
+  exists s', vloop e d dcnt g st =
+      Some (s', fold_left (fm_impl (fun l => bit e l && flagof l)) lanes 0) /\
+    scal_agree st s' /\
+    forall l r, vgpr s' l r =
+      if memz l lanes && bit e l then newv d dcnt (valof l) (vgpr st l) r else vgpr st l r.
+Proof.
+  intros e d dcnt g st valof flagof H1 H2. rewrite vloop_fold.
+  apply (vloop_gen e d dcnt g st valof flagof H1 H2).
+  - rewrite lanes_eq. apply nodup_lanes_upto.
+  - apply scal_agree_refl.
+  - reflexivity.
+Qed.
+Print Assumptions lane_loop_is_map.
+
 (** * Full-strength statement and its refutations.
     [conforms a f op wide]: the handler of (ALU a, format f, opcode op) agrees
     with the manual on every well-formed state and all covered operands. *)
@@ -145,3 +195,13 @@ Example ex_branch_taken :  (* s_cbranch_scc0 -2 from pc = 1024 *)
   match exec_scalar GCN3 ex_state (mkInst F_SOPP 4 (-1) (-1) (-1) (-1) 65534 0) with
   | Some s => pc s = 1016 | None => False end.
 Proof. vm_compute. reflexivity. Qed.
+
+Example ex_vector_hyp :   (* v_addc_u32 v5, v1, v2 : a row of both ALUs, admissible operands *)
+  let i := mkInst F_VOP2 28 257 258 (-1) 261 0 0 in
+  In (i_fmt i, i_op i) (vrows GCN3) /\ In (i_fmt i, i_op i) (vrows CDNA3) /\
+  forall a d r, vdesc_of a (i_fmt i) (i_op i) = Some d -> vrow_of a (i_fmt i) (i_op i) = Some r -> vadm d r i.
+Proof.
+  cbv zeta. split; [unfold vrows; cbn [In]; tauto|]. split; [unfold vrows; cbn [In]; tauto|].
+  intros a d r Hd Hr. destruct a; cbn in Hd, Hr; inversion Hd; inversion Hr; subst;
+    unfold vadm, admv, is_vgpr; cbn; repeat split; auto; intros; try lia; left; reflexivity.
+Qed.
